@@ -1397,30 +1397,18 @@ def OutClean (m : Model) (l : Live) : Prop :=
 theorem OutClean_empty (m : Model) : OutClean m Live.empty := by
   simp [OutClean, Live.empty]
 
-theorem Alloc.enter_live_empty {m : Model} {p : Params} {s : St} (hp : p.initState = true)
-    (hc : OutClean m s.live) :
+/-- `initialize(state_info=True)` empties every allocation list, at every index and whatever
+the state before (no hypothesis on `s`: `initLive` resets all indices). -/
+theorem Alloc.enter_live_empty {m : Model} {p : Params} {s : St} (hp : p.initState = true) :
     (∀ t, (enter m p s).live.allocW t = []) ∧ (∀ t, (enter m p s).live.allocF t = []) ∧
     (∀ w, (enter m p s).live.wasg w = []) ∧ (∀ f, (enter m p s).live.fasg f = []) := by
-  obtain ⟨h1, h2, h3⟩ := hc
   have e : (enter m p s).live = initComps m (chkReady m (pert m 0
       { initLive m p.initLog s.live with cpl := 0 })) := by
     simp only [enter, initProject, hp, if_true]
     cases p.initLog <;> rfl
   rw [e]
   simp only [initComps, compCheck, chkReady, pert, initLive, tabN_eq]
-  refine ⟨?_, ?_, ?_, ?_⟩
-  · intro t; by_cases h : t < m.nT
-    · simp [h]
-    · simp [h, (h1 t (Nat.le_of_not_lt h)).1]
-  · intro t; by_cases h : t < m.nT
-    · simp [h]
-    · simp [h, (h1 t (Nat.le_of_not_lt h)).2]
-  · intro t; by_cases h : t < m.nW
-    · simp [h]
-    · simp [h, h2 t (Nat.le_of_not_lt h)]
-  · intro t; by_cases h : t < m.nF
-    · simp [h]
-    · simp [h, h3 t (Nat.le_of_not_lt h)]
+  exact ⟨fun _ => rfl, fun _ => rfl, fun _ => rfl, fun _ => rfl⟩
 
 theorem AllocInv_of_empty {m : Model} {l : Live}
     (h1 : ∀ t, l.allocW t = []) (h2 : ∀ t, l.allocF t = [])
